@@ -22,6 +22,8 @@ def run(R, cfg, over=None):
         return bmc.run(R, H, obl)
     sp = D.build_step(R, H)
     D.prove_list(R, sp, obl)
+    if hasattr(H, "kernels_c08"):
+        H.kernels_c08(R)   # extra kernel-level obligations driven directly (as in C07/C09), e.g. Sudoku's reward kernels
 
 
 def jobs(tier, seed):
